@@ -24,7 +24,7 @@ RULE = (
     "through the public constructors and through DSDL text, and min / max / extent / fixed_length / byte alignment of the type and of "
     "every field offset, == and hash of two independently built copies are queried, while the harness counts the elements enumerated "
     "inside the solver (itertools.product / combinations_with_replacement in the symbolic module) and the size of every numerical "
-    "expansion.  Oracles: no expansion larger than 64 elements; work(huge) <= 2 * work(small) + 1000; work never exceeds a fixed budget "
+    "expansion.  Oracles: no expansion larger than 64 elements; work(huge) <= 8 * work(small) + 20000; work never exceeds a fixed budget "
     "(an enumerating implementation is cut off deterministically instead of hanging).  No wall-clock oracle.  Non-trivial = a capacity >= "
     "2**32 and a variable-length member nested under another."
 )
@@ -189,7 +189,9 @@ def _verify_pair(kind: str, small: Meter, huge: Meter, es: typing.Any, eh: typin
             "work(huge) about %d elements like the small variant" % small.work, "more than %d elements touched (cut off)" % WORK_BUDGET if isinstance(eh, WorkBudgetExceeded) else repr(eh)[:200], where)
     require(small.max_expansion <= MAX_EXPANSION and huge.max_expansion <= MAX_EXPANSION, "numerical-expansion:" + kind, "<= %d elements" % MAX_EXPANSION,
             (small.max_expansion, huge.max_expansion), where)
-    require(huge.work <= 2 * small.work + 1000, "cost-grows-with-capacity:" + kind, "<= 2 * %d + 1000" % small.work, huge.work, where)
+    # (the two variants are not cost-identical: the extent of an enclosing delimited type scales with the capacities, so its
+    # repetition count has another residue; that legitimately moves the count by a small factor, never by orders of magnitude)
+    require(huge.work <= 8 * small.work + 20000, "cost-grows-with-capacity:" + kind, "<= 8 * %d + 20000" % small.work, huge.work, where)
 
 
 def check_cost(case: typing.Any, ctx: Ctx) -> Info:
